@@ -151,6 +151,9 @@ def run(tier, seed, build):
                           "includes": [], "base": "prog", "args": [], "_prog": prog})
         else:
             cases.append(c02.gen_case(rng))
+    for i, c in enumerate(cases):      # every fifth case: the component files reach two multipliers through a re-assigned `length` variable
+        if i % 5 == 2:
+            c["files"] = {n: (pepper.lengthify(random.Random(seed * 6007 + i), t) if n.endswith(".comp") else t) for n, t in c["files"].items()}
     impl = fw.run_impl("props.c03", "impl_case", [{k: v for k, v in c.items() if not k.startswith("_")} for c in cases], per_case_timeout=60)
     model = fw.run_model([["des", [c["entries"], c["includes"], r.get("ctr0", 0) if isinstance(r, dict) else 0, c["base"], c["args"]]] for c, r in zip(cases, impl)])
     failures = []; nontrivial = set(); dist = {"accepted": 0, "rejected": 0, "components": 0, "systems": 0, "with_signals": 0, "unsat_both": 0, "sys_okb_holds": 0, "doc_names_distinct": 0, "system_theorem_applies": 0}
